@@ -4,7 +4,11 @@ use sqlgrep::model::{Float, Value, ValueType};
 
 const NEAR: i64 = 1 << 40;
 
+const TWO32: i64 = 1 << 32;
+
 pub fn jint(x: i64) -> J {
+    // values just beyond 32 bits (wrap-around candidates) have their own base: TLC integers are 32-bit
+    if x.checked_sub(TWO32).map(|d| d.abs() < (1 << 20)).unwrap_or(false) { return json!({"t": "int", "b": 2, "i": x - TWO32}); }
     if x > i64::MAX - NEAR { json!({"t": "int", "b": 1, "i": x - i64::MAX}) }
     else if x < i64::MIN + NEAR { json!({"t": "int", "b": -1, "i": x - i64::MIN}) }
     else { json!({"t": "int", "b": 0, "i": x}) }
@@ -53,7 +57,7 @@ pub fn text_of(v: &J) -> String {
 
 pub fn int_of(v: &J) -> i64 {
     let i = v["i"].as_i64().unwrap();
-    match v["b"].as_i64().unwrap() { 1 => i64::MAX + i, -1 => i64::MIN + i, _ => i }
+    match v["b"].as_i64().unwrap() { 1 => i64::MAX + i, -1 => i64::MIN + i, 2 => TWO32 + i, _ => i }
 }
 
 pub fn real_of(v: &J) -> f64 {
